@@ -104,7 +104,7 @@ class NetworkXMixin(metaclass=ABCMeta):
         :param rel:
         :return:
         """
-        for e in graph.edges(data=True):
+        for e in list(graph.edges(data=True)):
             # e is a tuple (source, target, property dict)
             if e[2].get(NetworkXMixin.NETWORKX_LABEL, None) != rel:
                 # delete this edge
